@@ -135,3 +135,29 @@ func vhB(b bool) int {
 	}
 	return 0
 }
+
+// VH_SN_New: the real constructor builds the target table from the configuration: every configured
+// (distinctly named) target is in the table exactly as configured - a target named "default" included -
+// and the built-in poll target "default" exists only when the configuration does not define that name.
+func VH_SN_New() {
+	n1, n2 := vx.String("name1"), vx.String("name2")
+	t1, t2 := vx.String("type1"), vx.String("type2")
+	d1, d2 := vx.Bytes("data1"), vx.Bytes("data2")
+	vx.Assume(n1 != n2)
+	cfg := &Config{Size: 1, Targets: []TargetConfig{{Name: n1, Type: t1, Data: d1}, {Name: n2, Type: t2, Data: d2}}}
+	s, err := New(&vhAIO{}, metrics.New(prometheus.NewRegistry()), cfg)
+	vx.Assert(err == nil && s != nil && s.worker != nil, "C19:sender-constructs")
+	tg := s.worker.targets
+	r1, ok1 := tg[n1]
+	r2, ok2 := tg[n2]
+	vx.Assert(ok1 && r1 != nil && r1.Type == t1 && vx.BytesEq(r1.Data, d1), "C19:configured-target-in-the-table-as-configured")
+	vx.Assert(ok2 && r2 != nil && r2.Type == t2 && vx.BytesEq(r2.Data, d2), "C19:configured-target-in-the-table-as-configured")
+	def, okd := tg["default"]
+	vx.Assert(okd && def != nil, "C19:default-target-always-present")
+	if n1 != "default" && n2 != "default" {
+		vx.Reach("builtin-default")
+		vx.Assert(def.Type == "poll", "C19:builtin-default-is-the-poll-group-default")
+	} else {
+		vx.Reach("configured-default")
+	}
+}
